@@ -211,9 +211,53 @@ def run_kani_units(mods, repo_root, tier, work, verbose=False):
                                        kind="bounded-harness" if bounded else "panic/overflow"))
         r.trusted = sorted(set(r.trusted) | set(getattr(m, "TRUSTED", [])))
         r.dropped = list(getattr(m, "DROPPED", []))
+    # concrete playback: for failed harnesses ask Kani for the counterexample and run it natively against
+    # the real code (cargo kani playback) -- that is the replay of the verifier's counterexample
+    failed = [(m, h) for m, h in harnesses if any(f["id"].startswith("%s.%s." % (m.NAME, h["name"].split("::")[-1])) for f in results[m.NAME].failures)]
+    for m, h in failed[:3]:
+        short = h["name"].split("::")[-1]
+        try:
+            cx = concrete_playback(dest, m, h, extra)
+        except Exception as e:
+            cx = dict(error=str(e)[:300])
+        for f in results[m.NAME].failures:
+            if f["id"].startswith("%s.%s." % (m.NAME, short)):
+                f["counterexample"] = cx
+                f["replayed"] = bool(cx.get("native_replay_failed_as_predicted"))
     # remove the crate's own build output, keep the dependency cache
     shutil.rmtree(dest, ignore_errors=True)
     return list(results.values())
+
+
+def concrete_playback(dest, m, h, extra):
+    short = h["name"].split("::")[-1]
+    cmd = ["cargo", "kani", "-Z", "function-contracts", "-Z", "stubbing", "-Z", "concrete-playback", "--concrete-playback=print",
+           "--output-format", "terse", "--harness", h["name"]] + [a for a in extra if a not in ("-Z", "function-contracts", "stubbing")]
+    p = subprocess.run(cmd, cwd=dest, env=ENV, capture_output=True, text=True, timeout=900)
+    out = p.stdout + p.stderr
+    tests = re.findall(r"```\n(.*?)```", out, flags=re.S)
+    if not tests:
+        return dict(note="Kani produced no concrete playback test")
+    test = tests[0]
+    tname = re.search(r"fn (kani_concrete_playback_\w+)", test).group(1)
+    values = re.findall(r"// (.*)\n\s*vec!\[([^\]]*)\]", test)
+    # append the generated test to the woven module of the harness and run it natively
+    rel, harness = next(((r, hf) for r, hf in m.INJECT if re.search(r"fn\s+%s\b" % re.escape(short), open(os.path.join(os.path.dirname(CACHE), hf)).read())), m.INJECT[0])
+    stem = os.path.splitext(os.path.basename(harness))[0]
+    path = os.path.join(dest, rel)
+    src = open(path).read()
+    marker = "mod verif_%s {\n    use super::*;" % stem
+    if marker not in src:
+        return dict(values=values, test=test, note="could not place playback test")
+    src = src.replace(marker, marker + "\n" + test, 1)
+    open(path, "w").write(src)
+    q = subprocess.run(["cargo", "kani", "playback", "-Z", "concrete-playback", "--", tname], cwd=dest, env=ENV, capture_output=True, text=True, timeout=1800)
+    qo = q.stdout + q.stderr
+    failed_native = "test result: FAILED" in qo and tname in qo
+    m2 = re.search(r"panicked at ([^\n]*)\n([^\n]*)", qo)
+    return dict(kind="kani-concrete-playback", inputs=["%s = bytes[%s]" % (a.strip(), b.strip()) for a, b in values], test=test,
+                native_replay_failed_as_predicted=failed_native, native_panic=(m2.group(0)[:300] if m2 else ""),
+                replay_cmd="cargo kani playback -Z concrete-playback -- %s  (in a scratch copy of the tree with the harness module woven in)" % tname)
 
 
 def setup(repo_root):
